@@ -146,10 +146,11 @@ func (srv *Server) handleChannel(ctx context.Context, c *ServerChannel) {
 		return
 	}
 
-	if !c.Established() {
+	if c.State() != SessionStateEstablished {
 		// The session was failed during the establishment
 		return
 	}
+	// (a session that was established gets its callbacks even if the connection is already lost)
 
 	established := srv.config.Established
 	if established != nil {
